@@ -60,9 +60,9 @@ PROPS = {
         note="Does not decide equality of concurrent and sequential results beyond that necessary condition, nor races inside "
              "dependencies. Trusted: rustc trait solver, emmyfacts, the per-thread table (1 entry) and the audited statics (3) in rules/c38.py."),
     "C26": dict(
-        module="c26", func="run", level="proof", crates=["emmylua_ls"],
+        module="c26", func="run", level="other", crates=["emmylua_ls"],
         technique="table evaluation from MIR (match arms, vec! literals, const items) and entry-by-entry agreement; value-source analysis of token record fields; presence of an end-of-previous-token comparison in the builder",
-        text="Proves the legend clause: for every token kind the index sent on the wire selects, in the registered "
+        text="Decides the legend clause exhaustively: for every token kind the index sent on the wire selects, in the registered "
              "legend, exactly the LSP type the kind stands for; every modifier bit i is legend entry i; the registered "
              "legend is built from these tables. Exhaustive over the finite tables (24 kinds, 10 modifiers). Two structural "
              "premises of 'ordered, non-overlapping, in-document tokens' are decided as well: token columns and lengths are both "
